@@ -33,8 +33,14 @@ def run(ctx):
     ctx.rule("R06-6", "Job.pids stays in launch order (fg hands it to wait_fg_job, which takes pids.last() for the stage whose "
                       "status counts): crate-wide, the vector is only appended to and shortened by order-preserving "
                       "removal - no swap_remove / sort / reverse / rotate / swap / insert")
+    ctx.rule("R06-8", "an event parked for a process stays parked until that process's job takes it: crate-wide, the four "
+                      "event maps are changed only by insert (the reapers) and by remove of one pid (the pops) - no clear / "
+                      "retain / drain / take / replace of a whole map.  (A `continued` parked next to a `stopped` for the "
+                      "same pid is taken on the following poll; wiping the maps after a poll leaves a running job shown "
+                      "Stopped.)")
     for crate in ctx.crates:
         order_rule(ctx, crate)
+        map_mutation_rule(ctx, crate)
         id_scan_rule(ctx, crate, "R06-7")
         lookup_rule(ctx, crate)
         routing_rule(ctx, crate)
@@ -397,3 +403,45 @@ def id_scan_rule(ctx, crate, rule):
                    detail=None if bad is None else "with jobs 1 and 2 alive and job 1 finished, jobs.len() is 1 and job 2 is "
                    "never found: it cannot be marked running / stopped / done, nor removed")
     ctx.floor(rule, crate, "id-scan loops over the job table", n, 6)
+
+
+MAP_READS = {"insert", "remove", "get", "contains", "contains_key", "len", "is_empty", "iter", "keys", "values"}
+MAP_BULK = {"clear", "retain", "drain", "extend", "take", "replace", "swap", "extract_if", "shrink_to_fit", "into_iter"}
+
+
+def map_mutation_rule(ctx, crate, rule="R06-8"):
+    n_fn, n_ops, bad = 0, 0, []
+    for b in crate.fns():
+        maps = {m for m in statics_used(b) if m.endswith("_MAP")}
+        if not maps:
+            continue
+        n_fn += 1
+        for bb, t, c in b.calls():
+            ls = last_seg(c)
+            if not any(k in c for k in ("HashMap", "HashSet", "BTreeMap", "BTreeSet")) and ls not in ("take", "replace", "swap"):
+                continue
+            a = b.call_args(bb)
+            if not a:
+                continue
+            e = render(b.expand_vars(mir.strip_sites(a[0])))
+            if "_MAP" not in e and "MutexGuard" not in e and "try_lock" not in e and "lock" not in e:
+                continue
+            n_ops += 1
+            if ls in MAP_BULK:
+                bad.append((b, bb, ls, sorted(maps)))
+    if not ctx.require(n_fn >= 8 and n_ops >= 8, rule, "%s|anchor" % rule,
+                       "expected the 8 insert / pop helpers of the event maps, found %d functions / %d operations" % (n_fn, n_ops)):
+        return
+    seen = set()
+    for b, bb, ls, maps in bad:
+        k = (b.path, ls)
+        if k in seen:
+            continue
+        seen.add(k)
+        ctx.ob(rule, b.path, "%s on an event map (%s)" % (ls, ", ".join(maps)), False,
+               key="%s|%s|bulk|%s" % (rule, b.path, ls), where=b.loc(bb), crate=crate.kind,
+               detail="events parked for processes whose job has not taken them yet are thrown away: a job continued while "
+                      "another command ran in the foreground stays listed as Stopped, an exit is never reported")
+    if not bad:
+        ctx.ob(rule, "(crate)", "the event maps are changed one pid at a time (%d functions, %d operations)" % (n_fn, n_ops),
+               True, key="%s|crate|per-pid" % rule, crate=crate.kind, nontrivial=True)
